@@ -259,9 +259,16 @@ pub fn spaces(tier: &str, _seed: u64) -> Vec<Box<dyn Space>> {
                 obj_scales: vec![1.0],
             }));
         }
+        let nonsym = l.iter().any(|c| matches!(c, Exp | Pow(_) | GenPow(_, _)));
+        let mut rules_l = rules.clone();
+        if nonsym {
+            // backtracking factors close to 1: the line search needs many trials before it finds a feasible step
+            rules_l.push((0.99, 0.99));
+            rules_l.push((0.99, 0.95));
+        }
         v.push(Box::new(Traj {
             src: Planted::new(l, n, s0.clone(), Judge::C04, 1, xids, "default"),
-            step_rules: rules.clone(),
+            step_rules: rules_l,
             kmax: if thorough { 60 } else { 25 },
             obj_scales: if li == 3 || li == 2 { vec![1.0, 1e3] } else { vec![1.0] },
         }));
